@@ -55,10 +55,10 @@ Print Assumptions C06_receive_literal_partial.
 
 (* one witness per deviation (replayed on the real code by tools/props/c06.py: corpus/C06/d*.json) *)
 Theorem C06_literal_refuted :
-  check_can_send [w_allow_send] false None [] (w_msg 1 (Some [97]) 5) <> spec_can_send dev_none [w_allow_send] w_ctx (w_msg 1 (Some [97]) 5) /\
-  check_can_send [w_allow_send_eav] false None [] (w_msg 2 (Some [97]) 5) <> spec_can_send dev_none [w_allow_send_eav] w_ctx (w_msg 2 (Some [97]) 5) /\
-  check_can_send [w_allow_send; w_deny_send_eav] false None [] (w_msg 1 (Some [97]) 0) <>
-  spec_can_send dev_none [w_allow_send; w_deny_send_eav] w_ctx (w_msg 1 (Some [97]) 0).
+  check_can_send [w_allow_send] false None [] (w_msg 1 (Some [97; 46; 98]) 5) <> spec_can_send dev_none [w_allow_send] w_ctx (w_msg 1 (Some [97; 46; 98]) 5) /\
+  check_can_send [w_allow_send_eav] false None [] (w_msg 2 (Some [97; 46; 98]) 5) <> spec_can_send dev_none [w_allow_send_eav] w_ctx (w_msg 2 (Some [97; 46; 98]) 5) /\
+  check_can_send [w_allow_send; w_deny_send_eav] false None [] (w_msg 1 (Some [97; 46; 98]) 0) <>
+  spec_can_send dev_none [w_allow_send; w_deny_send_eav] w_ctx (w_msg 1 (Some [97; 46; 98]) 0).
 Proof. exact literal_refuted. Qed.
 Print Assumptions C06_literal_refuted.
 
@@ -162,8 +162,8 @@ Print Assumptions C06_denied_own_changes_nothing.
 (* ---- non-vacuity ------------------------------------------------------------------------------------------- *)
 (* the hypotheses of the partial theorems are satisfiable, and by rule lists that decide something *)
 Example C06_ex_literal_class :
-  send_literal_class [w_allow_send] (mkSendCtx false false None []) (w_msg 1 (Some [97]) 0) = true /\
-  check_can_send [w_allow_send] false None [] (w_msg 1 (Some [97]) 0) = true.
+  send_literal_class [w_allow_send] (mkSendCtx false false None []) (w_msg 1 (Some [97; 46; 98]) 0) = true /\
+  check_can_send [w_allow_send] false None [] (w_msg 1 (Some [97; 46; 98]) 0) = true.
 Proof. split; vm_compute; reflexivity. Qed.
 
 Example C06_ex_optimize_prunes_soundly :
